@@ -319,6 +319,9 @@ func judgeQuery(c queryCase, note func(r qref, w want, known string)) string {
 		if knownClass("C17/tab-column") && c.Mode != "lib" && strings.IndexByte(string(w.Text[:w.Pos]), '\t') >= 0 {
 			known = "C17/tab-column"
 		}
+		if k := knownIllFormed(w); k != "" && c.Mode != "lib" {
+			known = k
+		}
 	}
 	if note != nil {
 		note(r, w, known)
